@@ -515,6 +515,53 @@ theorem post_close_refusal_kinds (f : Flags) (hf : noFurtherUpdatesAllowed f = t
     updateOk true f [st] = !isPreCloseStep st := by
   simp [updateOk, hf]
 
+/-- **freeze_iff_any_close_flag** — the GENERATED `no_further_updates_allowed` is exactly "one of the three close flags is set",
+    for EVERY value of the funding-mode flags (`is_manual_broadcast`, `funding_seen_onchain`): no channel type is exempt from
+    the post-close freeze, and a channel with none of the flags set is not frozen. -/
+theorem freeze_iff_any_close_flag (f : Flags) :
+    noFurtherUpdatesAllowed f = (f.fundingSpendSeen || f.lockdownFromOffchain || f.holderTxSigned) := by
+  simp [noFurtherUpdatesAllowed]
+
+example : noFurtherUpdatesAllowed { holderTxSigned := true, isManualBroadcast := true, fundingSeenOnchain := true } = true := by decide
+example : noFurtherUpdatesAllowed { isManualBroadcast := true, fundingSeenOnchain := false } = false := by decide
+
+/-- **never_sign_revoked_holder_any_funding_mode** — `never_sign_revoked_holder` for a channel of EITHER funding mode
+    (ordinary, or funding_transaction_generated_manual_broadcast with the funding seen on chain or not), over every sequence
+    of the events of `never_sign_revoked_holder` plus {the monitor goes on chain through
+    queue_latest_holder_commitment_txn_for_broadcast(require_funding_seen), an HTLC times out in block_confirmed, the funding
+    transaction is seen on chain}, with the GENERATED decisions `skipBroadcastUntilFundingSeen`, `timeoutBroadcastAllowed`,
+    `broadcastOnFundingSeen` deciding whether a signature is requested: no holder commitment number handed to the signer
+    ever has its secret released, and whenever anything was signed the GENERATED freeze predicate holds. -/
+theorem never_sign_revoked_holder_any_funding_mode (n0 : Nat) (manual seen : Bool) (evs : List HolderGate.Ev) (s : HolderGate.Sys)
+    (h : HolderGate.run (HolderGate.Sys.initF n0 manual seen) evs = some s) :
+    (∀ n ∈ s.signReq, n ∉ s.released) ∧ (∀ n ∈ s.released, s.monCur < n) ∧
+    (s.signReq ≠ [] → noFurtherUpdatesAllowed s.flags = true) ∧ s.monCur = s.chanCur := by
+  have inv := HolderGate.Inv.run evs _ s (HolderGate.Inv.initF n0 manual seen) h
+  refine ⟨fun n hn => (inv.i5 n hn).1, inv.i1, ?_, inv.i2⟩
+  intro hne
+  rw [freeze_iff_any_close_flag, inv.i4 hne]; simp
+
+/-- **marked_channel_is_frozen** — whichever way the monitor decides to go on chain (user / ChannelForceClosed broadcast with or
+    without require_funding_seen, HTLC timeout), and whether or not a transaction is really queued (manual-broadcast funding
+    not yet seen: nothing is), the freeze holds from that step on: the next commitment_signed releases nothing. -/
+theorem marked_channel_is_frozen (s s1 s2 : HolderGate.Sys) (e : HolderGate.Ev) (pc : Bool)
+    (he : (∃ r, e = .goOnChain r) ∨ e = .htlcTimeout ∨ e = .sign)
+    (h1 : HolderGate.step s e = some s1) (h2 : HolderGate.step s1 (.csRecv pc) = some s2) :
+    noFurtherUpdatesAllowed s1.flags = true ∧ s2.released = s1.released ∧ s2.inflight = some (s1.chanCur, true) := by
+  have hs : s1.flags.holderTxSigned = true := by
+    rcases he with ⟨r, rfl⟩ | rfl | rfl <;> (simp only [HolderGate.step] at h1; cases h1; rfl)
+  have h := signed_state_never_revoked s1 s2 pc hs h2
+  exact ⟨by rw [freeze_iff_any_close_flag, hs]; simp, h.2.1, h.2.2.1⟩
+
+-- non-vacuity: a manual-broadcast channel whose funding was seen: an HTLC times out (the monitor signs number 9), the
+-- commitment_signed that follows is applied but its revoke_and_ack (secret 9) stays frozen for ever
+example : (HolderGate.run (HolderGate.Sys.initF 10 true true) [.csRecv true, .htlcTimeout, .csRecv true]).map
+    (fun s => (s.released, s.signReq, s.monCur, s.inflight)) = some ([10], [9], 8, some (9, true)) := by decide
+-- funding not yet seen: marked (frozen, nothing signed), the update is still refused; when the funding shows up the
+-- monitor signs its THEN-current commitment 8, whose secret is not released either
+example : (HolderGate.run (HolderGate.Sys.initF 10 true false) [.csRecv true, .goOnChain true, .csRecv true, .fundingSeen]).map
+    (fun s => (s.released, s.signReq, s.monCur, s.inflight)) = some ([10], [8], 8, some (9, true)) := by decide
+
 -- non-vacuity: two updates complete (secrets 10, 9 released), the monitor signs number 8, a further commitment_signed is
 -- applied (monitor at 7) but its revoke_and_ack stays frozen, also across a reload; 8 is never released
 example : (HolderGate.run (HolderGate.Sys.init 10) [.csRecv true, .csRecv false, .complete, .sign, .csRecv true, .restart, .complete]) = none := by decide
